@@ -1,6 +1,7 @@
 SPECIFICATION Spec
 CONSTANTS
   Scen1 <- ScenRall
+  ScenBusy <- NoBusy
   Scen2 <- ScenR2
   ClearChoices = {TRUE}
   Installs = {TRUE}
